@@ -169,6 +169,20 @@ DIRECTED = [
      b'a\r\nh 8  20 \r\nb\r\n'),
     ('fault:overflow', ['10 ON ERROR GOTO 100', '20 PRINT "a":Q%=32767+1:PRINT "b"', '30 END', H + 'RESUME NEXT'], None,
      b'a\r\nh 6  20 \r\nb\r\n'),
+    ('fault:while-assigning-a-read-item-belongs-to-the-read-line',
+     ['10 ON ERROR GOTO 100', '20 PRINT "a":READ Q%:PRINT "b"', '30 END', '60 DATA 40000', H + 'RESUME NEXT'], None,
+     b'a\r\nh 6  20 \r\nb\r\n'),
+    ('fault:while-assigning-a-read-item-belongs-to-the-read-line',
+     ['10 ON ERROR GOTO 100', '20 PRINT "a":READ A,B%(11):PRINT "b";A', '30 END', '60 DATA 7', '70 DATA 1', H + 'RESUME NEXT'], None,
+     b'a\r\nh 9  20 \r\nb 7 \r\n'),
+    ('fault:while-assigning-a-read-item-belongs-to-the-read-line',
+     ['10 PRINT "a"', '20 READ A,Q%', '30 PRINT "no"', '40 DATA 1', '50 PRINT "x":DATA -40000'], None, b'a\r\nOverflow in 20' + E),
+    ('fault:while-assigning-a-read-item-belongs-to-the-read-line',
+     ['10 ON ERROR GOTO 100', '20 PRINT "a":READ Q%:PRINT "b"', '30 END', '60 DATA 40000',
+      H + 'C%=C%+1:IF C%<2 THEN RESUME ELSE RESUME NEXT'], None, b'a\r\nh 6  20 \r\nh 6  20 \r\nb\r\n'),
+    ('fault:out-of-data-belongs-to-the-read-line',
+     ['10 ON ERROR GOTO 100', '20 PRINT "a":READ A,B:PRINT "b"', '30 END', '60 DATA 7', H + 'RESUME NEXT'], None,
+     b'a\r\nh 4  20 \r\nb\r\n'),
     ('fault:return-without-gosub-trapped', ['10 ON ERROR GOTO 100', '20 PRINT "a":RETURN:PRINT "b"', '30 END', H + 'RESUME NEXT'], None,
      b'a\r\nh 3  20 \r\nb\r\n'),
     ('fault:untrapped-real-fault', ['10 PRINT "a"', '20 Q%=B%(11)'], None, b'a\r\nSubscript out of range in 20' + E),
